@@ -269,7 +269,15 @@ fn replay(path: &str) -> ! {
     let w = &j["witness"];
     let mut bad = [false; 2];
     for round in 0..2 {
-        if w["engine"] == "run-lexi" {
+        if w["engine"] == "process-oversize" {
+            let s = unhex(w["stream"].as_str().unwrap());
+            let n = w["n"].as_u64().unwrap() as usize;
+            let sizes: Vec<usize> = w["sizes"].as_array().unwrap().iter().map(|v| v.as_u64().unwrap() as usize).collect();
+            let o = proc_case(n, &s, &sizes);
+            let (calls, outb) = log::with(|l| (l.ev.iter().filter(|e| e.k == K::Enter).map(|e| l.data(e).to_vec()).collect::<Vec<_>>(), l.concat(K::TWrite)));
+            println!("round {round}: process::<{n}>(\"{}\") sizes {:?} -> {:?}; handlers {:?}, written \"{}\"", show(&s), sizes, o.result, calls.iter().map(|c| show(c)).collect::<Vec<_>>(), show(&outb));
+            bad[round] = calls != vec![b"B?()".to_vec()] || outb != b"7\n";
+        } else if w["engine"] == "run-lexi" {
             let x = unhex(w["input"].as_str().unwrap());
             let mut m = mc::ifaces::Lexi;
             let o = if w["cap8"] == true {
@@ -645,13 +653,53 @@ fn main() {
             overflow += w.log_overflow;
         }
     }
+    // (d) a message longer than N is "discarded input": nothing of it may be executed, and the
+    //     message after it is executed normally
+    let mut over_execs = 0u64;
+    {
+        let over: &[&[u8]] = &[
+            b"A:B;E;B?\n",
+            b"A:N 5,'ab';B;E\n",
+            b"*R;A:B;E;:B?;A:D?\n",
+            b"A:S 'a long string, longer than small buffers';:E\n",
+            b"A:A:A;A;:A:B;E;:B 1;:A:Y\n",
+        ];
+        for m in over {
+            let mut stream = m.to_vec();
+            stream.extend_from_slice(b"B?\n");
+            for &n in runx::N_ALL.iter().filter(|&&n| n >= 3 && n < m.len()) {
+                let mut chunkings: Vec<Vec<usize>> = vec![env::regular(stream.len(), 1), env::regular(stream.len(), n), vec![stream.len()]];
+                env::cuts_up_to(stream.len(), 1, |c| chunkings.push(c.to_vec()));
+                for sizes in chunkings {
+                    let o = proc_case(n, &stream, &sizes);
+                    over_execs += 1;
+                    if o.end != End::Returned {
+                        continue;
+                    }
+                    let (calls, outb) = log::with(|l| (l.ev.iter().filter(|e| e.k == K::Enter).map(|e| l.data(e).to_vec()).collect::<Vec<_>>(), l.concat(K::TWrite)));
+                    if calls != vec![b"B?()".to_vec()] || outb != b"7\n" {
+                        let feat = vec![("engine", "process".to_string()), ("kind", "part-of-an-oversized-message-is-executed".to_string()), ("detail", String::new())];
+                        out.groups.add("crash-freedom", &feat, (stream.len() * 1000 + n, &stream), || {
+                            (
+                                json!({"engine": "process-oversize", "n": n, "stream": hex(&stream), "sizes": sizes}),
+                                format!(
+                                    "process::<{n}>(\"{}\") read sizes {:?}: the first message is longer than the buffer and can only be discarded, but handlers {:?} ran and \"{}\" was written (expected: only B?() of the second message, output \"7\\n\")",
+                                    show(&stream), sizes, calls.iter().map(|c| show(c)).collect::<Vec<_>>(), show(&outb)
+                                ),
+                            )
+                        });
+                    }
+                }
+            }
+        }
+    }
     if overflow > 0 {
         out.machinery_errors.push(format!("event log overflowed in {overflow} executions"));
     }
     if cfg!(microscpi_verif) && hook_calls == 0 {
         out.machinery_errors.push("hook was never called".into());
     }
-    let total = lex_execs + lex2_execs + lex3_execs + lexeme_execs + cap_execs + many_execs + long_execs + env_execs;
+    let total = lex_execs + lex2_execs + lex3_execs + lexeme_execs + cap_execs + many_execs + long_execs + env_execs + over_execs;
     out.cov("states", lex_cases + lex3_cases + msgs.len() as u64 + env_streams);
     out.cov("transitions", total);
     out.cov("traces_validated_against_impl", total);
@@ -673,6 +721,7 @@ fn main() {
             "lex_run_other_writers": {"max_tokens": lex2_len, "writers": writers2.iter().map(|w| w.json()).collect::<Vec<_>>(), "executions": lex2_execs},
             "lex_run_second_alphabet": {"alphabet": lex::sigma_alt_json(), "max_tokens": lex3_len, "writers": lw3.iter().map(|w| w.json()).collect::<Vec<_>>(), "strings": lex3_cases, "executions": lex3_execs},
             "lexeme_strings_on_lexi": {"alphabet": lex::sigma_lexeme_json(), "max_tokens": lexeme_len, "executions": lexeme_execs},
+            "oversized_messages": {"messages": 5, "N": "every instantiated N below the message length", "oracle": "nothing of the oversized message is executed, the following message is", "executions": over_execs},
             "long_numeric_fields": {"digits": "1..=40 in mantissa, fraction, exponent, radix literals, block length", "parameter_types": 15, "executions": long_execs},
             "many_parameters": {"headers": 9, "literal_kinds": 6, "parameters": "0..=16", "executions": many_execs},
             "capacity_sweep": {"messages": msgs.len(), "capacities": "recorder 0..=64, heapless {0,1,2,8,9,16,41,64}", "executions": cap_execs},
